@@ -1,7 +1,9 @@
 package main
 
 import (
+	"fmt"
 	"go/types"
+	"sort"
 	"strings"
 
 	"golang.org/x/tools/go/ssa"
@@ -483,6 +485,39 @@ func (st *State) specBuiltin(env *Env, e *Expr) (SVal, types.Type, bool) {
 		}
 		v, t := st.elab(&n, e.Args[0])
 		return v, t, true
+	case "fresh_only":
+		// fresh_only("E:uuid.UUID:", ...): in the arrays matching the patterns, every object that existed when the
+		// unit was entered still holds what it held then (only objects allocated since may differ)
+		var pats []string
+		for _, a := range e.Args {
+			if a.Kind != "str" {
+				st.unsupported("fresh_only needs string literals")
+			}
+			pats = append(pats, a.Name)
+		}
+		var keys []string
+		for k := range st.e.keySort {
+			if matchKey(pats, k) && (strings.HasPrefix(k, "F|") || strings.HasPrefix(k, "B|") || strings.HasPrefix(k, "E|") || strings.HasPrefix(k, "MH|") || strings.HasPrefix(k, "MV|")) {
+				keys = append(keys, k)
+			}
+		}
+		sort.Strings(keys)
+		var cs []*Term
+		for _, k := range keys {
+			ks := st.e.keySort[k]
+			if i1, _ := ks.ArrayParts(); !ks.IsArray() || i1 != SInt {
+				continue
+			}
+			cur := st.heapGet(st.view(env), k, ks, st.e.keyIsRef[k])
+			pre := st.heapGet(st.pre, k, ks, st.e.keyIsRef[k])
+			if cur.S == pre.S {
+				continue
+			}
+			st.n++
+			i := Const(fmt.Sprintf("i!b%d", st.n), SInt)
+			cs = append(cs, Forall([]*Term{i}, Implies(And(Ge(i, IntLit(0)), Lt(i, Const("A0", SInt))), Eq(Select(cur, i), Select(pre, i))), Select(cur, i)))
+		}
+		return And(cs...), tBool, true
 	case "durstr":
 		a, _ := st.elab(env, e.Args[0])
 		return st.durStr(st.scalar(a)), tString, true
